@@ -94,6 +94,17 @@ def cuts_(r, t, first):
     return list(range(first, len(t), 58))
 
 
+def grammar_loc(r, depth=0):
+    """a random expression of the domain's location grammar: atom | op(loc,...), complement with one operand"""
+    def atom():
+        return randword(r, "0123456789.<>^:abXZ", r.randint(1, 8))
+    if depth >= 3 or r.random() < 0.45:
+        return atom()
+    op = r.choice(["join", "order", "complement", "bond", "gap", "oneof", "x", "", "JOIN", "complementx"])
+    n = 1 if op == "complement" else r.randint(1, 4)
+    return op + "(" + ",".join(grammar_loc(r, depth + 1) for _ in range(n)) + ")"
+
+
 def location(r, n, depth=0):
     def span():
         a = r.randint(1, max(1, n))
@@ -108,6 +119,8 @@ def location(r, n, depth=0):
             s = s.replace("..", "..>")
         return s
     k = r.random()
+    if depth == 0 and k < 0.04:
+        return grammar_loc(r)
     if k < 0.12:
         # INSDC forms the parser keeps as text only
         a = r.randint(1, max(1, n)); b = r.randint(a, max(a, n))
@@ -372,7 +385,11 @@ PARTIAL = ["features_recovered / parse_layout: proved for features whose qualifi
 TECHNIQUE = ("Lean 4 proof over an executable model of genbank.Parse / ParseMulti / ParseFlat against an independent flat-file "
              "writer (round trip parse (layout r l) = r for every record and every layout choice); differential correspondence "
              "on generated (record, layout) pairs")
-LEVEL_TEXT = ("Every clause is a kernel-checked theorem about the model for ALL abstract records in the domain predicate wf and ALL "
+LEVEL_TEXT = ("(Layout family widened after review: empty standard blocks written or left out, extra keyword blocks in 7 slots, "
+              "qualifier values quoted / unquoted / absent, keys with capitals, every INSDC-shaped location text; repeated qualifier "
+              "keys are judged and are the one known finding, with the positive theorems features_recovered_last_wins / "
+              "parse_layout_last_wins saying exactly what is kept.) "
+              "Every clause is a kernel-checked theorem about the model for ALL abstract records in the domain predicate wf and ALL "
               "layout choices (no bound on sequence length below 10^8, number of features, qualifiers, references, records, line "
               "widths): origin_recovered, locus_recovered (every name, every number of digits, 4 molecule types, 2 topologies, "
               "18 divisions, all gaps), sublines_rejoined/block_rejoined, source_organism_recovered, reference_recovered, "
@@ -383,5 +400,5 @@ LEVEL_TEXT = ("Every clause is a kernel-checked theorem about the model for ALL 
               "pairs: Parse, ParseMulti, ParseFlat and Read, ReadMulti, ReadFlat, ReadFlatGz, all fields the property lists.")
 LEVEL_NOTE = ("Trusted: Lean kernel; Spec/GbLayout.lean (the writer and wf, typed from the NCBI flat-file description); the scanners that "
               "stand for the four regular expressions; ASCII; parseLocation (C02) not panicking on domain location texts; "
-              "file I/O and gzip of the Read* wrappers. Five defects found by this check were repaired in /repo (5a12a0c, c94d396, "
-              "49c2e81, d6becc3, 1a072ef); their exemplars stay in gen/corpus/C01 as regression cases.")
+              "file I/O and gzip of the Read* wrappers. Six defects found by this check or its review were repaired in /repo (5a12a0c, c94d396, "
+              "49c2e81, d6becc3, 1a072ef, 1650bb9); their exemplars stay in gen/corpus/C01 as regression cases.")
